@@ -168,11 +168,12 @@ func runC10(c *run.Ctx) {
 					if !isField || fld.Name == "__typename" {
 						continue
 					}
-					fld.Name = "nope_field_zz"
+					// (every third one looks like a meta-field: two leading underscores do not make a name defined)
+					fld.Name = []string{"nope_field_zz", "nope_field_zz", "__nope_field_zz"}[(i+sp.idx)%3]
 					fld.Alias = c10Key
 					fld.Args = nil
 					fld.Sels = nil
-					offender = "nope_field_zz"
+					offender = fld.Name
 					noCallField = fld.Name
 				case "undeclared-arg-alone":
 					if !isField || fd == nil || len(fd.Args) > 0 || fld.Name == "__typename" || refl {
